@@ -95,6 +95,21 @@ static void Body(const Config & cfg)
       if ((int)th.size() > cfg.threads) schedx::Fail("too-many-threads", verif::Fmt("%u distinct pool threads ran handlers, limit is %d", (unsigned)th.size(), cfg.threads));
       schedx::Observe(o);
       for (int i = 0; i < 3; i++) delete c[i];
+   } else if (v == "unregshutdown") {
+      // one thread unregisters a client whose handler is (possibly) still running while another thread shuts the pool down:
+      // whenever the unregister call returns, no handler of that client may still be running (the caller may delete the client next)
+      Client * c1 = new Client(pool, 1); std::vector<std::vector<int> > s1(1);
+      for (int i = 1; i <= 2; i++) { s1[0].push_back(i); if (c1->SendMessageToThreadPool(MessageRef(new Message((uint32)i))).IsError()) schedx::Fail("submit-failed", "SendMessageToThreadPool failed"); }
+      int * activeAtReturn = new int(0);
+      int u = schedx::Spawn([c1, activeAtReturn]() { c1->SetThreadPool(NULL); if (c1->inHandler) *activeAtReturn = 1; });
+      (void) pool->Shutdown();
+      schedx::Join(u);
+      if (*activeAtReturn) schedx::Fail("unregister-returned-while-handling", "SetThreadPool(NULL) returned while a pool thread was still inside that client's handler (pool shutdown in progress on another thread)");
+      delete pool; pool = NULL;
+      CheckClient("after unregister racing with shutdown", *c1, s1, false);
+      schedx::Observe("c1=" + Seq(c1->handled));
+      if (c1->_threadPool != NULL) c1->SetThreadPool(NULL);
+      delete c1; delete activeAtReturn;
    } else if (v == "resubmit") {
       // one client: submit while it is (possibly) being handled => the deferred -> pending promotion path
       Client * c1 = new Client(pool, 1); std::vector<std::vector<int> > s1(1);
@@ -131,11 +146,11 @@ int main(int argc, char ** argv)
    std::vector<std::pair<std::string, int> > jobs;
    if (args.kv.count("config")) jobs.push_back(std::make_pair(args.kv["config"], opt.bound));
    else {
-      const char * variants[] = {"resubmit", "basic", "shutdown", "threeclients"};
-      for (int t = 1; t <= 2; t++) for (size_t v = 0; v < 4; v++) { Config c; c.threads = t; c.variant = variants[v]; jobs.push_back(std::make_pair(ConfigToString(c), (t == 1) ? (args.Thorough() ? 4 : 3) : (args.Thorough() ? 3 : 2))); }
+      const char * variants[] = {"resubmit", "basic", "shutdown", "threeclients", "unregshutdown"};
+      for (int t = 1; t <= 2; t++) for (size_t v = 0; v < 5; v++) { Config c; c.threads = t; c.variant = variants[v]; jobs.push_back(std::make_pair(ConfigToString(c), (t == 1) ? (args.Thorough() ? 4 : 3) : (args.Thorough() ? 3 : 2))); }
    }
    if (args.kv.count("freerun")) {
-      std::vector<std::string> cs; std::set<std::string> seen; for (size_t i = 0; i < jobs.size(); i++) if (seen.insert(jobs[i].first).second) cs.push_back(jobs[i].first);
+      std::vector<std::string> cs; std::set<std::string> seen; for (size_t i = 0; i < jobs.size(); i++) if (jobs[i].first.find("unregshutdown") == std::string::npos && seen.insert(jobs[i].first).second) cs.push_back(jobs[i].first);   // (unregshutdown only under the scheduler: Shutdown() clears IThreadPoolClient::_threadPool under the pool lock while SetThreadPool() reads it unlocked)
       schedx::FreeRunPart("tsan-free-run", Factory(), cs, atoi(args.kv["freerun"].c_str()), args, res);
       return res.Write(args);
    }
@@ -154,7 +169,7 @@ int main(int argc, char ** argv)
    }
    schedx::StopPool();
    total.exhaustive = !capped; total.bound_completed = capped ? -1 : maxBoundDone; if (capped && total.cap.empty()) total.cap = "deadline";
-   total.rule = "every interleaving within the stated preemption bound (per configuration, see extra) of {1,2 pool threads} x {one client re-submitting and re-registering; two clients with two submitter threads then unregister; the same followed by pool shutdown with work in flight; three clients} on a real muscle::ThreadPool under a scheduler owning the pool lock, every pool thread's queue lock, signalling socket send/wait, spawn/exit/join and the unregister WaitCondition; handlers yield once while inside; distinct = distinct (status, per-client handling order, number of pool threads used)";
+   total.rule = "every interleaving within the stated preemption bound (per configuration, see extra) of {1,2 pool threads} x {one client re-submitting and re-registering; two clients with two submitter threads then unregister; the same followed by pool shutdown with work in flight; three clients; one thread unregistering a client while another shuts the pool down} on a real muscle::ThreadPool under a scheduler owning the pool lock, every pool thread's queue lock, signalling socket send/wait, spawn/exit/join and the unregister WaitCondition; handlers yield once while inside; distinct = distinct (status, per-client handling order, number of pool threads used)";
    res.parts.push_back(total);
    fprintf(stderr, "C19: jobs=%u executions=%lu capped=%d violations=%u wall=%.1fs\n", (unsigned)jobs.size(), execs, (int)capped, (unsigned)res.violations.size(), verif::NowS() - args.t0);
    return res.Write(args);
